@@ -38,7 +38,8 @@ def confirm(d):
     wt = worktree(tag); res = {}
     try:
         shutil.copy(os.path.join(d, "zz_demo.rs"), os.path.join(wt, "tests", "zz_demo.rs"))
-        tgt = {"CARGO_TARGET_DIR": "/tmp/seedrun/target_shared"}
+        tdir = "/tmp/seedrun/target_%d" % os.getpid()       # private: a shared target dir lets concurrent runs execute each other's zz_demo binary
+        tgt = {"CARGO_TARGET_DIR": tdir}
         rc, out = sh("cargo test --offline --test zz_demo 2>&1", cwd=wt, env=tgt)
         res["demo_passes_unpatched"] = (rc == 0); res["demo_unpatched_tail"] = out[-600:]
         rc, out = sh("git apply %s" % os.path.join(d, "patch.diff"), cwd=wt)
@@ -55,6 +56,7 @@ def confirm(d):
         res["confirmed"] = bool(res["demo_passes_unpatched"] and res["patch_applies"] and res["suite_passes_patched"] and res["demo_fails_patched"])
     finally:
         drop(wt)
+        shutil.rmtree("/tmp/seedrun/target_%d" % os.getpid(), ignore_errors=True)
     json.dump(res, open(os.path.join(d, "confirm.json"), "w"), indent=1)
     print(d, "CONFIRMED" if res.get("confirmed") else "NOT CONFIRMED", {k: v for k, v in res.items() if isinstance(v, bool)})
     return res.get("confirmed")
